@@ -140,6 +140,8 @@ class C13(Check):
             cs.append({"kind": "pattern", "pat": i})
         # the same signer behind the other dongle classes (manager_tcp: Platform.X86 + HSM2DongleTCP;
         # the TCPSigner runs the same hsm.c / heartbeat.c)
+        # numbers of every byte length the firmware can send (leading zeros are stripped on the wire)
+        cs.append({"kind": "lengths"})
         cs.append({"kind": "state", "rot": 3, "diff": 3, "platform": "tcp"})
         cs.append({"kind": "params", "mind": 2, "platform": "tcp"})
         cs.append({"kind": "signer-hb", "der": 0, "platform": "tcp"})
@@ -197,6 +199,23 @@ class C13(Check):
             self.history(case, stats, vs)
         elif k == "pattern":
             self.pattern(case, stats, vs)
+        elif k == "lengths":
+            for n in range(0, 37):
+                for top in (0x01, 0x80, 0xff):
+                    val = int.from_bytes(bytes([top]) + b"\x5a" * (n - 1), "big") if n else 0
+                    dev = self.mkdev()
+                    dev.difficulty, dev.flags = val, (0, 1, 1)
+                    dev.min_difficulty, dev.network = val, 1
+                    proto = harness.make_protocol(World(dev))
+                    c = dict(case, n=n, top=top)
+                    stats.evaluations += 1
+                    reply, exc = harness.handle_request(proto, {"command": "blockchainState", "version": 5})
+                    self.verify_state(dev, reply, exc, c, vs, ":len%d" % n)
+                    reply, exc = harness.handle_request(proto, {"command": "blockchainParameters", "version": 5})
+                    self.verify_params(dev, reply, exc, c, vs, ":len%d" % n)
+                    stats.observe(("lengths", n, top))
+                    if n == 0:
+                        break
         return vs
 
     def pattern(self, case, stats, vs):
